@@ -452,3 +452,9 @@ def check_C08(rep, fl):
     # expired values leave through on_evict: the sweeper reports every entry it takes out, with its value, and
     # examines every key the expiry index has handed over (and forgotten)
     props_store.check_sweeper(rep, fl)
+    # ... which presupposes that the entry is filed under a bucket that comes due only after its deadline, and that
+    # a due bucket is handed over whole (C05's rules on the expiry index)
+    props_store.check_buckets(rep, fl)
+    props_store.check_em_insert(rep, fl)
+    props_store.check_em_update(rep, fl)
+    props_store.check_em_cleanup(rep, fl)
